@@ -33,6 +33,7 @@ func init() {
 			ruleOptionSetters(r, "P8", "upstream_options.go")
 			ruleC20P9(r)
 			ruleNoTickerPerIteration(r, "P10", "/iscp", "/wire")
+			ruleC20P11(r)
 			r.borrow("C01", func() { ruleC01R8(r) }) // the send buffer owns its slices (a snapshot of buffered points must not change under the caller)
 		},
 	})
@@ -603,4 +604,72 @@ func ruleC20P9(r *Run) {
 		})
 	}
 	r.Stat("sized_makes", n)
+}
+
+// ruleC20P11: "no chunk is ever cut empty". flush decides by the number of buffered data ids, and the flush loop makes
+// an entry for the data id of every group it is handed; a group without points must therefore never be handed over:
+// the hand-over in WriteDataPoints lies on the "has points" edge of a test of len(points).
+func ruleC20P11(r *Run) {
+	r.Begin("P11", "no entry without points: the hand-over to the flush loop in (*Upstream).WriteDataPoints is dominated by the non-empty edge of a test of the number of points written", 1)
+	p := r.P
+	w := r.method("/iscp", "Upstream", "WriteDataPoints")
+	if w == nil {
+		return
+	}
+	name := fnName(w)
+	var hand ssa.Instruction
+	allInstrs(w, func(ins ssa.Instruction) {
+		switch x := ins.(type) {
+		case *ssa.Send:
+			if hasLeaf(p.Leaves(x.Chan, provOpts{}), "field:/iscp.Upstream.dpgCh") {
+				hand = ins
+			}
+		case *ssa.Select:
+			for _, st := range x.States {
+				if st.Dir == types.SendOnly && hasLeaf(p.Leaves(st.Chan, provOpts{}), "field:/iscp.Upstream.dpgCh") {
+					hand = ins
+				}
+			}
+		}
+	})
+	if hand == nil {
+		r.Undecided(name+" hand-over", "no send on Upstream.dpgCh in WriteDataPoints")
+		return
+	}
+	ok := false
+	allInstrs(w, func(ins ssa.Instruction) {
+		ifs, isIf := ins.(*ssa.If)
+		if !isIf {
+			return
+		}
+		bo, isBo := ifs.Cond.(*ssa.BinOp)
+		if !isBo {
+			return
+		}
+		c, isC := bo.X.(*ssa.Call)
+		if !isC {
+			return
+		}
+		if b, isB := c.Call.Value.(*ssa.Builtin); !isB || b.Name() != "len" {
+			return
+		}
+		if _, isP := canonVal(c.Call.Args[0]).(*ssa.Parameter); !isP {
+			return
+		}
+		k, isK := constInt(bo.Y)
+		if !isK {
+			return
+		}
+		var nonEmpty *ssa.BasicBlock
+		switch {
+		case bo.Op == token.EQL && k == 0, bo.Op == token.LSS && k == 1, bo.Op == token.LEQ && k == 0:
+			nonEmpty = ifs.Block().Succs[1]
+		case bo.Op == token.NEQ && k == 0, bo.Op == token.GTR && k == 0, bo.Op == token.GEQ && k == 1:
+			nonEmpty = ifs.Block().Succs[0]
+		}
+		if nonEmpty != nil && edgeDominates(ifs.Block(), nonEmpty, hand.Block()) {
+			ok = true
+		}
+	})
+	r.Check(name+" hands over only groups with points", ok, posOf(p, hand), name, "a write without points is handed to the flush loop, which makes a buffer entry for its data id; flush counts entries, not points, and cuts a chunk that holds one empty group")
 }
